@@ -4,6 +4,7 @@ from __future__ import annotations
 
 import ast
 import math
+from fractions import Fraction as F
 
 from sa import term as T
 from sa.effects import Effects
@@ -14,6 +15,7 @@ from sa.report import Run
 from sa.scipp_model import Model
 from sa.term import Rat, Vec
 from sa.units import Unit
+from sa.witness import WitnessInterp, WitnessModel, items_of, sym_scalar
 
 from .common import eq_term, events, history_free, returns, show
 
@@ -67,6 +69,129 @@ def vmax(x, y):
 
 def max0(x):
     return vmax(x, Rat.const(0))
+
+
+def call(wi, fi, args, kwargs=None, bound=None):
+    from sa.interp import RaiseSignal
+    try:
+        return 'return', wi.call_function(fi, list(args), dict(kwargs or {}), bound=bound)
+    except RaiseSignal as r:
+        return 'raise', r.exc_type
+
+
+def witness_cylinder(wi, wm, repo, radius=F(1), height=F(2)):
+    cls = repo.cls(MOD, 'Cylinder')
+    a = make_param(wi, 'a', P(kind='vector', dim='ONE', dtype='vector3', unit=Unit()))
+    base = make_param(wi, 'base', P(kind='vector', dim='L', dtype='vector3', unit=Unit.named('m')))
+    for v in (a, base):
+        v.members['dims'] = []
+    return SObj(cls, {'symmetry_line': a, 'center_of_base': base, 'radius': sym_scalar(wi, wm, 'radius', Unit.named('m'), radius, positive=True),
+                      'height': sym_scalar(wi, wm, 'height', Unit.named('m'), height, positive=True)})
+
+
+class ShapeStub:
+    """A sample shape that hands out two symbolic quadrature points and records the rays it is asked about."""
+
+    def __init__(self, wi, wm):
+        self.wi, self.wm = wi, wm
+        self.calls = []
+        pts = []
+        for i in range(2):
+            p_ = make_param(wi, f'pt{i}', P(kind='vector', dim='L', dtype='vector3', unit=Unit.named('mm')))
+            p_.members['dims'] = []
+            pts.append(p_)
+        self.points = wm.array(wi, pts, 'quad')
+        self.weights = wm.array(wi, [sym_scalar(wi, wm, f'w{i}', Unit({'mm': 3}), 1 + i, positive=True) for i in range(2)], 'quad')
+        self.volume = sym_scalar(wi, wm, 'volume', Unit({'mm': 3}), 7, positive=True)
+        self.center = pts[0]
+
+    def quadrature(self, kind):
+        return self.points, self.weights
+
+    def beam_intersection(self, start_point, direction):
+        k = len(self.calls)
+        self.calls.append((start_point, direction))
+        return self.wm.array(self.wi, [sym_scalar(self.wi, self.wm, f'Lcall{k}_{i}', Unit.named('mm'), 1 + i + k, positive=True) for i in range(2)], 'quad')
+
+
+class MaterialStub:
+    def __init__(self, wi, wm):
+        self.wi, self.wm = wi, wm
+
+    def attenuation_coefficient(self, wavelength):
+        name = T.show(wavelength.term)
+        return sym_scalar(self.wi, self.wm, f'mu_{name}', Unit({'mm': -1}), 2, positive=True)
+
+
+class FoldModel(WitnessModel):
+    """Constant folding of the numeric part of the reference rule with numpy itself."""
+
+    def call_ext(self, interp, path, args, kwargs, node):
+        import numpy as np
+        if path in ('numpy.polynomial.chebyshev.chebgauss', 'numpy.polynomial.legendre.leggauss') and len(args) == 1 and isinstance(args[0], int):
+            fn = np.polynomial.chebyshev.chebgauss if 'chebgauss' in path else np.polynomial.legendre.leggauss
+            x, w = fn(args[0])
+            return (x, w)
+        if path.startswith('numpy.') and path.split('.')[1] in ('repeat', 'tile', 'array', 'asarray', 'ones', 'zeros', 'cos', 'sin', 'sqrt') \
+                and all(isinstance(a, list | tuple | int | float | np.ndarray | np.generic) for a in args):
+            return getattr(np, path.split('.')[1])(*args, **kwargs)
+        return super().call_ext(interp, path, args, kwargs, node)
+
+    def sc_array(self, interp, args, kwargs, node):
+        import numpy as np
+        vals = kwargs.get('values')
+        if isinstance(vals, np.ndarray | list) and not isinstance(vals, SVar):
+            return NumArr(np.asarray(vals, dtype=float), tuple(kwargs.get('dims') or ()))
+        return super().sc_array(interp, args, kwargs, node)
+
+    def _builtin(self, interp, name, args, kwargs, node):
+        import numpy as np
+        if name == 'sum' and args and isinstance(args[0], np.ndarray):
+            return float(np.sum(args[0]))
+        if name == 'len' and args and isinstance(args[0], np.ndarray):
+            return len(args[0])
+        return super()._builtin(interp, name, args, kwargs, node)
+
+
+class NumArr:
+    def __init__(self, a, dims):
+        self.a, self.dims = a, dims
+
+
+def fold_rule(repo, sfi, kind, ratio):
+    """Problems of the reference rule of the unit cylinder (radius 1, z in [-1, 1]) selected for `kind`."""
+    import numpy as np
+    T.reset()
+    wm = FoldModel()
+    wi = WitnessInterp(repo, wm)
+    cyl = witness_cylinder(wi, wm, repo, radius=F(1), height=ratio)
+    k_, quad = call(wi, sfi, [kind], bound=cyl)
+    if k_ != 'return' or not isinstance(quad, dict) or not all(isinstance(quad.get(n), NumArr) for n in ('x', 'y', 'z', 'weights')):
+        return [f'_select_quadrature_points({kind!r}) gives {k_} {quad!r}'[:200]], {}
+    x, y, z, w = (quad[n].a for n in ('x', 'y', 'z', 'weights'))
+    probs = []
+    if not (len(x) == len(y) == len(z) == len(w)) or len(w) == 0:
+        return ['arrays of different length'], {}
+    if w.min() <= 0:
+        probs.append(f'non-positive weight {w.min()}')
+    if (x * x + y * y).max() > 1 + 1e-12 or np.abs(z).max() > 1 + 1e-12:
+        probs.append('point outside the unit cylinder')
+    if abs(w.sum() - 2 * math.pi) > 4e-6:  # the tabulated disk rules carry ~7 digits
+        probs.append(f'weights sum to {w.sum()}, volume of the unit cylinder is {2 * math.pi}')
+    n_line = len(set(np.round(z, 14)))
+    disk_deg, tol = {'cheap': FROZEN_DEGREE['disk12'], 'medium': FROZEN_DEGREE['disk55'], 'expensive': FROZEN_DEGREE['disk256_cheb']}[kind]
+    line_deg = min(2 * n_line - 1, 9) if kind == 'cheap' else 1
+    worst = 0.0
+    for d in range(min(disk_deg, 7) + 1):
+        for a_ in range(d + 1):
+            b_ = d - a_
+            for c_ in range(line_deg + 1):
+                got = float((w * x**a_ * y**b_ * z**c_).sum())
+                want = disk_moment(a_, b_) * (2.0 / (c_ + 1) if c_ % 2 == 0 else 0.0)
+                worst = max(worst, abs(got - want))
+    if worst > max(tol, 1e-12) * 4:
+        probs.append(f'moment error {worst:.3g}')
+    return probs, {'points': len(w), 'line_points': n_line, 'max_moment_error': worst}
 
 
 def run(tier: str) -> Run:
@@ -147,13 +272,42 @@ def run(tier: str) -> Run:
         ok = all(isinstance(v.get(k), list) and v[k] == want[k] for k in want)
         detail = {k: v.get(k) if isinstance(v.get(k), list) else repr(v.get(k)) for k in want}
     r3.check(ok, '_cylinder_quadrature_from_product', loc(pfi), detail, key='product')
-    texts = stmts(fi.node)
-    want_s = ["x=(quad['x']*self.radius).to(unit=self.center.unit)", "y=(quad['y']*self.radius).to(unit=self.center.unit)",
-              "z=(quad['z']*self.height/2).to(unit=self.center.unit)", "weights=quad['weights']*(self.radius**2*self.height/2)",
-              'points+=self.center', 'return(points,weights)']
-    missing = [w for w in want_s if w not in texts]
-    r3.check(not missing and any(t_.startswith("points=sc.vectors(dims=['quad'],values=sc.concat([x,y,z],dim='row').transpose(['quad','row']).values") for t_ in texts),
-             'scaling and translation', loc(fi), {'missing': missing}, key='scaling')
+    # scaling, rotation and translation of the reference rule: the rule itself is replaced by two symbolic points
+    for axis_case in ('generic axis',):
+        T.reset()
+        wm = WitnessModel()
+        wi = WitnessInterp(repo, wm)
+        cyl = witness_cylinder(wi, wm, repo)
+        q = {k: wm.array(wi, [sym_scalar(wi, wm, f'q{k}{i}', Unit(), F(1, 3 + i)) for i in range(2)], 'quad') for k in ('x', 'y', 'z', 'weights')}
+        wi.stubs[repo.func(MOD, 'Cylinder._select_quadrature_points').fq] = lambda interp, args, kwargs, bound, q=q: dict(q)
+        outs = wi.run_all(lambda i, cyl=cyl: i.call_function(fi, ['cheap'], {}, bound=cyl))
+        rets = [o for o in outs if o.kind == 'return']
+        ok_any = False
+        problems = []
+        for o in rets:
+            pts, wts = o.value if isinstance(o.value, tuple) and len(o.value) == 2 else (None, None)
+            pi_, wi_ = items_of(pts), items_of(wts)
+            if pi_ is None or wi_ is None or len(pi_) != 2 or len(wi_) != 2:
+                problems.append('quadrature does not return (points, weights) arrays of the rule length')
+                continue
+            rotated = any(e.kind == 'rotation-from-rotvec' for e in o.events)
+            r_, h_ = S('radius', True), S('height', True)
+            centre = V('base') + V('a') * h_ / 2
+            for i in range(2):
+                local = T.as_vectors(S(f'qx{i}') * r_, S(f'qy{i}') * r_, S(f'qz{i}') * h_ / 2)
+                want_w = S(f'qweights{i}') * r_ ** 2 * h_ / 2
+                got_p, got_w = pi_[i].term, wi_[i].term
+                if not (isinstance(got_w, Rat) and got_w.eq(want_w)):
+                    problems.append(f'weight {i}: {T.show(got_w) if got_w is not None else None} != {T.show(want_w)}')
+                if rotated:
+                    rot = next(e for e in o.events if e.kind == 'rotation-from-rotvec').detail['term']
+                    want_p = T.Mat.of(T.atom('mfn', 'rot', (rot,))) * local + centre if isinstance(rot, Vec) else None
+                else:
+                    want_p = local + centre
+                if not (isinstance(got_p, Vec) and want_p is not None and got_p.eq(want_p)):
+                    problems.append(f'point {i} ({"rotated" if rotated else "axis along z"}): {T.show(got_p) if got_p is not None else None} != {T.show(want_p) if want_p is not None else None}')
+            ok_any = True
+        r3.check(ok_any and not problems, 'scaling and translation', loc(fi), {'problems': problems[:3], 'paths': len(rets)}, key='scaling')
     for prop, want_t in (('center', lambda: V('base') + V('a') * S('height', True) / 2),
                          ('volume', lambda: S('radius', True) ** 2 * S('height', True) * Rat.sym('pi', True))):
         pf = repo.func(MOD, f'Cylinder.{prop}')
@@ -161,9 +315,15 @@ def run(tier: str) -> Run:
         r3.check(len(o) == 1 and o[0].value.term is not None and eq_term(o[0].value.term, want_t()), prop, loc(pf),
                  {'computed': show(o[0].value) if o else None}, key=prop)
     sfi = repo.func(MOD, 'Cylinder._select_quadrature_points')
-    texts = stmts(sfi.node)
-    r3.check(texts.count('w*=(1-x**2)**0.5') == 2 and texts.count('w/=sum(w)/2') == 2 and texts.count('x,w=chebgauss(k)') == 2
-             and 'x,w=leggauss(k)' in texts, '1-d rules normalised to total weight 2', loc(sfi), {}, key='line-rules')
+    for kind in ('cheap', 'medium', 'expensive'):
+        for ratio in ((F(1, 10), F(1), F(4)) if tier != 'thorough' else (F(1, 100), F(1, 10), F(1), F(2), F(4), F(100))):
+            probs, info = fold_rule(repo, sfi, kind, ratio)
+            r3.check(not probs, f'reference rule [{kind}, height/radius={ratio}]', loc(sfi), {**info, 'problems': probs[:3]}, key=f'rule:{kind}')
+    T.reset()
+    wm = WitnessModel()
+    wi = WitnessInterp(repo, wm)
+    kindq, resq = call(wi, sfi, ['no such rule'], bound=witness_cylinder(wi, wm, repo))
+    r3.check(kindq == 'raise', 'unknown rule name is refused', loc(sfi), {'outcome': (kindq, resq if kindq == 'raise' else None)}, key='rule:unknown')
 
     # ---- R4 transmission ---------------------------------------------------------------------
     r4 = run.rule('R4', 'transmission = sum w exp(-mu (L_in + L_out)) / volume, L_in along -beam_direction', 3)
@@ -188,19 +348,63 @@ def run(tier: str) -> Run:
         ok = eq_term(outs[0].value.term, want) and not bad
         detail = {'computed': show(outs[0].value)[:200], 'unit_problems': bad}
     r4.check(ok, '_transmission_fraction', loc(tfi), detail, key='fraction')
-    dfi = repo.func(bmod, '_single_scatter_distance_through_sample')
-    texts = stmts(dfi.node)
-    r4.check('L1=sample_shape.beam_intersection(scatter_point,-initial_direction)' in texts
-             and 'L2=sample_shape.beam_intersection(scatter_point,scatter_direction)' in texts and 'returnL1+L2' in texts,
-             'L_in along -beam, L_out towards the detector', loc(dfi), {'statements': texts}, key='distance')
     cfi = repo.func(bmod, 'compute_transmission_map')
-    ifi = repo.func(bmod, '_integrate_transmission_fraction')
-    texts = stmts(cfi.node) + stmts(ifi.node)
-    ok = any('data=transmission/sample_shape.volume' in t_ for t_ in texts) and 'points,weights=sample_shape.quadrature(quadrature_kind)' in texts \
-        and 'scatter_direction=detector_position-points.to(unit=detector_position.unit)' in texts \
-        and 'scatter_direction/=sc.norm(scatter_direction)' in texts and 'Ltot=distance_through_sample(scatter_direction)' in texts \
-        and any('values=tf.values@weights.values' in t_ for t_ in texts)
-    r4.check(ok, 'weighted sum divided by the volume', loc(cfi), {}, key='map')
+    T.reset()
+    wm = WitnessModel()
+    wi = WitnessInterp(repo, wm)
+    shape = ShapeStub(wi, wm)
+    material = MaterialStub(wi, wm)
+    beam = make_param(wi, 'beam', P(kind='vector', dim='ONE', dtype='vector3', unit=Unit()))
+    beam.members['dims'] = []
+    det = make_param(wi, 'det', P(kind='vector', dim='L', dtype='vector3', unit=Unit.named('m')))
+    det.members['dims'] = []
+    wav = wm.array(wi, [sym_scalar(wi, wm, f'lam{j}', Unit.named('angstrom'), 1 + j, positive=True) for j in range(2)], 'wavelength')
+    kind_, res = call(wi, cfi, [], {'sample_shape': shape, 'sample_material': material, 'beam_direction': beam, 'wavelength': wav,
+                                    'detector_position': det, 'quadrature_kind': 'cheap'})
+    probs = []
+    if kind_ != 'return' or not isinstance(res, SVar) or items_of(res) is None:
+        probs.append(f'compute_transmission_map: {kind_} {res!r}'[:200])
+    else:
+        # geometry handed to the shape: L_in along -beam from every point, L_out towards the detector
+        if len(shape.calls) != 2:
+            probs.append(f'beam_intersection called {len(shape.calls)} times, expected 2 (in and out)')
+        else:
+            dirs = [d for _, d in shape.calls]
+            starts = [p_ for p_, _ in shape.calls]
+            neg_beam = [d for d in dirs if isinstance(d, SVar) and isinstance(d.term, Vec) and d.term.eq(-V('beam'))]
+            out_dirs = [d for d in dirs if items_of(d) is not None]
+            if len(neg_beam) != 1:
+                probs.append('no path length is taken along -beam_direction')
+            if len(out_dirs) != 1:
+                probs.append('no path length is taken towards the detector')
+            else:
+                for i, d in enumerate(items_of(out_dirs[0])):
+                    diff = V('det') - V(f'pt{i}')
+                    want_d = diff * (1 / T.norm(diff))
+                    if not (isinstance(d.term, Vec) and d.term.eq(want_d)):
+                        probs.append(f'scatter direction {i} is {T.show(d.term) if d.term is not None else None}, expected the unit vector from the point to the detector')
+            for st in starts:
+                its = items_of(st)
+                if its is None or not all(isinstance(x.term, Vec) and x.term.eq(V(f'pt{i}')) for i, x in enumerate(its)):
+                    probs.append('path lengths do not start at the quadrature points')
+        items = items_of(res)
+        if len(items) != 2:
+            probs.append(f'{len(items)} wavelength entries, expected 2')
+        else:
+            for j, it_ in enumerate(items):
+                mu = S(f'mu_lam{j}', True)
+                total = Rat.const(0)
+                for i in range(2):
+                    total = total + S(f'w{i}', True) * T.fn_exp(-mu * (S(f'Lcall0_{i}', True) + S(f'Lcall1_{i}', True)))
+                want = total / S('volume', True)
+                if not (isinstance(it_.term, Rat) and it_.term.eq(want)):
+                    probs.append(f'transmission[{j}] = {T.show(it_.term)[:160] if it_.term is not None else None}, expected sum_i w_i exp(-mu (L_in_i + L_out_i)) / volume')
+        coords = res.members.get('coords') or {}
+        if set(coords) != {'detector_position', 'wavelength'}:
+            probs.append(f'coords {sorted(coords)}')
+    r4.check(not probs, 'weighted sum divided by the volume; L_in along -beam, L_out towards the detector', loc(cfi), {'problems': probs[:4]}, key='map')
+    dfi = repo.func(bmod, '_single_scatter_distance_through_sample')
+    r4.check(not any('beam' in p_ or 'detector' in p_ or 'start' in p_ for p_ in probs), 'L_in along -beam, L_out towards the detector', loc(dfi), {'problems': probs[:4]}, key='distance')
 
     # ---- R5 geometry formulas ---------------------------------------------------------------------
     r5 = run.rule('R5', 'interval, slab and infinite-cylinder intersection formulas', 4)
@@ -262,12 +466,29 @@ def run(tier: str) -> Run:
         detail = {'computed': [T.show(g)[:160] for g in got], 'expected': [T.show(w)[:160] for w in want]}
     r5.check(ok, '_line_infinite_cylinder_intersection', loc(cylf), detail, key='cylinder')
     bfi = repo.func(MOD, 'Cylinder.beam_intersection')
-    texts = stmts(bfi.node)
-    ok = 'base_point=self.center_of_base-start_point' in texts \
-        and any(t_.startswith('returnsc.where(cyl_intersection&slab_intersection,_positive_interval_intersection(slab_interval,cyl_interval),sc.scalar(0.0,unit=start_point.unit)') for t_ in texts) \
-        and any(t_.startswith('cyl_intersection,*cyl_interval=_line_infinite_cylinder_intersection(self.symmetry_line,base_point,self.radius,direction)') for t_ in texts) \
-        and any(t_.startswith('slab_intersection,*slab_interval=_line_slab_intersection(self.symmetry_line,base_point,self.height,direction)') for t_ in texts)
-    r5.check(ok, 'Cylinder.beam_intersection', loc(bfi), {'statements': texts}, key='beam-intersection')
+    T.reset()
+    it = Interp(repo, Model())
+    box = {}
+
+    def bi(i):
+        cyl = cyl_bound(repo)(i)
+        start = make_param(i, 'start', P(kind='vector', dim='L', dtype='vector3', unit=Unit.param('len')))
+        direction = make_param(i, 'dir', P(kind='vector', dim='ONE', dtype='vector3', unit=Unit()))
+        got = i.call_function(bfi, [start, direction], {}, bound=cyl)
+        # the same geometry composed from the helpers whose formulas are decided above
+        base_point = i.model.binop(i, 'sub', cyl.attrs['center_of_base'], start, None)
+        c_ok, c0, c1 = i.call_function(cylf, [cyl.attrs['symmetry_line'], base_point, cyl.attrs['radius'], direction], {})
+        s_ok, s0, s1 = i.call_function(slab, [cyl.attrs['symmetry_line'], base_point, cyl.attrs['height'], direction], {})
+        both = i.model.binop(i, 'and', c_ok, s_ok, None)
+        length = i.call_function(pif, [(s0, s1), (c0, c1)], {})
+        zero = i.model.sc_scalar(i, [0.0], {'unit': start.unit}, None)
+        box['want'] = i.model.sc_where(i, [both, length, zero], {}, None)
+        return got
+    outs = it.run_all(bi)
+    ok = len(outs) == 1 and outs[0].kind == 'return' and isinstance(outs[0].value, SVar) and isinstance(outs[0].value.term, Rat) \
+        and isinstance(box.get('want'), SVar) and isinstance(box['want'].term, Rat) and outs[0].value.term.eq(box['want'].term)
+    r5.check(ok, 'Cylinder.beam_intersection', loc(bfi), {'outcomes': [(o.kind, o.exc_type, o.where) for o in outs],
+                                                         'computed': show(outs[0].value)[:200] if outs and outs[0].kind == 'return' else None}, key='beam-intersection')
 
     # ---- R6 ---------------------------------------------------------------------------------------
     r6 = run.rule('R6', 'quadrature / transmission code writes no module-level state and hands out no memoised arrays', 3)
